@@ -509,7 +509,8 @@ def report(prop, tier, seed, results, kres, t0):
             obligations += 1
             if f["success"]:
                 discharged += 1
-            per_fn.append({"fn": f["name"], "mode": f["mode"], "smt_ms": f["ms"], "ok": f["success"], "backend": "verus/z3"})
+            per_fn.append({"fn": f["name"], "mode": f["mode"], "smt_ms": f["ms"], "ok": f["success"], "backend": "verus/z3",
+                           "unit": r["unit"]})
         # baseline regression guard: fewer verified functions than frozen => undecided
         b = baseline.get(r["unit"])
         if b and r["status"] == "ok":
@@ -651,7 +652,10 @@ def report(prop, tier, seed, results, kres, t0):
     if rc == 0:
         print("OK property=%s tier=%s obligations=%d discharged=%d tagged_clauses=%d wall=%.1fs" %
               (prop, tier, obligations, discharged, n_tagged, wall))
-        if obligations == 0 or obligations != discharged:
+        # a function whose only failing clauses are recorded findings is accounted for (reported above), not undecided
+        known_fns = {(r["unit"], (e["fn"]["name"] if e.get("fn") else e.get("lemma"))) for _, e, r in known_hits}
+        accounted = len([x for x in per_fn if not x["ok"] and (x.get("unit"), x["fn"].split("::")[-1]) in known_fns])
+        if obligations == 0 or obligations != discharged + accounted:
             print("UNDECIDED property=%s obligation count %d/%d" % (prop, discharged, obligations))
             return 2
     return rc
